@@ -170,16 +170,55 @@ LawsPos(rec) ==
        /\ \A i \in 1..Len(ts) : ts[i].t = "str" => FindLaw(v, ts[i], Native("indices", v, <<ts[i]>>).o[1].a)
 
 -----------------------------------------------------------------------------
+-----------------------------------------------------------------------------
+(* Second reading of builtin.jq.  The operators of Regex.tla TRANSCRIBE the  *)
+(* definitions of match ... gsub.  For the runs that carry k.pa (index of    *)
+(* the program's AST in rec.asts) JqSem.tla also EVALUATES the program with  *)
+(* the definitions parsed from /repo/builtin.jq (the Prelude), where the     *)
+(* check appends                                                            *)
+(*   def _match($re; $flags; $test):                                        *)
+(*     input[[$re, $flags, $test] | tojson] | if .e then error(null) else .v end; *)
+(* and feeds, as the input stream, the table of what funcMatch answers for   *)
+(* the argument triples this record can ask for.  Both readings must give    *)
+(* the same stream (x = "xagree"); a difference is specification drift       *)
+(* (tool trouble), never a verdict about the code.                           *)
+XKey(re, fl, tst) == JsonText(Arr(<<re, fl, tst>>)).s
+XEntry(r) == IF Failed(r) THEN Obj(<< <<<<101>>, True>> >>) ELSE Obj(<< <<<<118>>, r.o[1]>> >>)      \* {"e": true} | {"v": result}
+XTable(c) ==
+  LET res == IF c.re.t = "str" THEN <<c.re, Str(WrapW(c.re.s))>> ELSE <<c.re>>
+      g == PlusG(c.fl)
+      fls == IF Failed(g) THEN <<c.fl>> ELSE <<c.fl, g.o[1]>>
+      RECURSIVE Fill(_, _, _, _)
+      Fill(i, j, b, o) ==
+        IF i > Len(res) THEN o
+        ELSE IF j > Len(fls) THEN Fill(i + 1, 1, 1, o)
+        ELSE IF b > 2 THEN Fill(i, j + 1, 1, o)
+        ELSE LET tst == IF b = 1 THEN False ELSE True
+                 r == FuncMatch(c.v, res[i], fls[j], tst, c.P)
+             IN Fill(i, j, b + 1, IF r.e = OOM THEN o ELSE ObjPut(o, XKey(res[i], fls[j], tst), XEntry(r)))
+  IN Obj(Fill(1, 1, 1, <<>>))
+
+XVerdict(rec, k, c, exp) ==
+  LET ast == rec.asts[k.pa] IN
+  IF "perr" \in DOMAIN ast \/ exp.e = OOM THEN "xoom"
+  ELSE LET tab == XTable(c)
+           r == Eval(ast, c.v, <<VarB("$re", c.re, NoOrg), VarB("$flags", c.fl, NoOrg)>>, [i \in 1..8 |-> tab])
+       IN IF r.e.k \notin {"none", "err"} THEN "xoom"
+          ELSE IF r.o = exp.o /\ r.e.k = exp.e.k THEN "xagree" ELSE "xmismatch"
+
 RunVerdict(rec, run, c) ==
-  IF "panic" \in DOMAIN run /\ run.panic # "" THEN [v |-> "panic"]
-  ELSE IF "cerr" \in DOMAIN run THEN [v |-> "cerr"]
-  ELSE IF "long" \in DOMAIN run /\ run.long THEN [v |-> "long"]
-  ELSE LET exp == IF rec.meta.fam = "re" THEN ExpectedRe(rec, run.k, c) ELSE ExpectedPos(rec, run.k)
-           re == IF "err" \in DOMAIN run THEN run.err ELSE [k |-> "none"]
-       IN IF exp.e = OOM THEN [v |-> "oom"]
-          ELSE IF Len(exp.o) = Len(run.out) /\ (\A i \in 1..Len(exp.o) : VMatch(exp.o[i], run.out[i])) /\ VMatchErr(exp.e, re)
-               THEN [v |-> "agree", n |-> Len(exp.o), e |-> exp.e.k]
-               ELSE [v |-> "mismatch", exp |-> exp]
+  LET exp == IF rec.meta.fam = "re" THEN ExpectedRe(rec, run.k, c) ELSE ExpectedPos(rec, run.k)
+      x == IF "pa" \in DOMAIN run.k THEN [x |-> XVerdict(rec, run.k, c, exp)] ELSE [y \in {} |-> 0]
+  IN
+  x @@
+  (IF "panic" \in DOMAIN run /\ run.panic # "" THEN [v |-> "panic"]
+   ELSE IF "cerr" \in DOMAIN run THEN [v |-> "cerr"]
+   ELSE IF "long" \in DOMAIN run /\ run.long THEN [v |-> "long"]
+   ELSE LET re == IF "err" \in DOMAIN run THEN run.err ELSE [k |-> "none"]
+        IN IF exp.e = OOM THEN [v |-> "oom"]
+           ELSE IF Len(exp.o) = Len(run.out) /\ (\A i \in 1..Len(exp.o) : VMatch(exp.o[i], run.out[i])) /\ VMatchErr(exp.e, re)
+                THEN [v |-> "agree", n |-> Len(exp.o), e |-> exp.e.k]
+                ELSE [v |-> "mismatch", exp |-> exp])
 
 RecVerdict(rec) ==
   LET isre == rec.meta.fam = "re"
